@@ -1,6 +1,7 @@
 import Ptk.Proto
 import Ptk.Gen.C10Display
-import Ptk.Model.C10Diff
+import Ptk.Model.C10Gen
+import Ptk.Model.C10Tok
 open Ptk Ptk.Py Ptk.Proto Ptk.C10
 
 /-- style environment sent by the harness (parameters of the model that belong to C19's domain):
@@ -39,8 +40,8 @@ def pList {α} (p : P α) : P (List α) := do let n ← pNat; pMany p n
 
 def pFrag : P (Text × Text) := do let s ← pStr; let t ← pStr; pure (s, t)
 
-def M := Gen.C10.displayMappings
-def WC := Gen.C10.wcwidth
+def M := genTable
+def WC := genWc
 
 def encCell (c : Cell) : String := s!"{encStr c.char} {encStr c.style} {c.width}"
 
@@ -61,17 +62,8 @@ structure DState where
   vt : VtSt := none
   prevWidth : Nat := 0
 
-/-- `_CHAR_CACHE[" ", Transparent]` -/
-def D0 : Cell := mkCell M WC [' '] "[transparent]".toList
-
-def E : Emit := {
-  hide := Gen.C10.hideCursor, show_ := Gen.C10.showCursor, reset := Gen.C10.resetAttrs,
-  eraseDown := Gen.C10.eraseDown, eraseEol := Gen.C10.eraseEol,
-  disableWrap := Gen.C10.disableAutowrap, enableWrap := Gen.C10.enableAutowrap,
-  up1 := Gen.C10.cursorUp1, fwd1 := Gen.C10.cursorFwd1, back1 := Gen.C10.cursorBack1,
-  upPre := Gen.C10.cursorUpPre, upSuf := Gen.C10.cursorUpSuf,
-  fwdPre := Gen.C10.cursorFwdPre, fwdSuf := Gen.C10.cursorFwdSuf,
-  backPre := Gen.C10.cursorBackPre, backSuf := Gen.C10.cursorBackSuf }
+def D0 : Cell := genD0
+def E : Emit := genEmit
 
 def posLt (a b : Pos) : Bool := a.1 < b.1 || (a.1 == b.1 && a.2 < b.2)
 
@@ -109,17 +101,20 @@ def handle (st : DState) : String → P (DState × String)
     let e := st.env
     let segs := printFrags e.attrsOf e.sgr Gen.C10.resetAttrs Gen.C10.enableAutowrap frs
     pure (st, encStr (segsText segs) ++ " " ++ encSegs segs)
+  | "tok" => do
+    let s ← pStr
+    pure (st, encList encStr (ctrlTokens s))
   | "newscreen" => pure ({ st with buf := [], zwe := [], height := 0 }, "ok")
   | "resetr" => pure ({ st with prev := none, x := 0, y := 0, last := none, vt := none, prevWidth := 0 }, "ok")
   | "copy" => do
     let xpos ← pInt; let ypos ← pInt; let width ← pInt; let height ← pInt
-    let wrap ← pBool; let hscroll ← pNat; let vscroll ← pNat; let vscroll2 ← pNat
+    let wrap ← pBool; let hscroll ← pNat; let align ← pNat; let vscroll ← pNat; let vscroll2 ← pNat
     let hasPre ← pBool
     let pre0 ← pList pFrag; let preN ← pList pFrag
     let lines ← pList (pList pFrag)
     let cfg : CopyCfg := {
       m := M, wc := WC, dflt := D0, xpos := xpos, ypos := ypos, width := width, height := height,
-      wrap := wrap, hscroll := hscroll,
+      wrap := wrap, hscroll := hscroll, align := align,
       pre := if hasPre then some (fun _ wc => if wc = 0 then pre0 else preN) else none }
     let r := copyBody cfg st.buf st.zwe lines vscroll vscroll2
     let h := max st.height (ypos + height).toNat
